@@ -1,0 +1,54 @@
+//go:build verif
+
+package sweeper
+
+import (
+	"sync"
+	"time"
+)
+
+// Verification hooks, only compiled with the build tag "verif".
+//
+// verifNow lets a harness substitute the wall clock a sweep pass reads;
+// verifYield is called between two write-lock slices of a pass (the
+// callback runs in the sweeper's goroutine, so a harness can commit an
+// application transaction exactly there).
+
+var (
+	verifMu      sync.Mutex
+	verifClockFn func(t time.Time) time.Time
+	verifYieldFn func(point string)
+)
+
+// VerifSetClock installs (or, with nil, removes) the clock substitute.
+func VerifSetClock(f func(t time.Time) time.Time) {
+	verifMu.Lock()
+	defer verifMu.Unlock()
+	verifClockFn = f
+}
+
+// VerifSetYield installs (or, with nil, removes) the yield callback.
+func VerifSetYield(f func(point string)) {
+	verifMu.Lock()
+	defer verifMu.Unlock()
+	verifYieldFn = f
+}
+
+func verifNow(t time.Time) time.Time {
+	verifMu.Lock()
+	f := verifClockFn
+	verifMu.Unlock()
+	if f != nil {
+		return f(t)
+	}
+	return t
+}
+
+func verifYield(point string) {
+	verifMu.Lock()
+	f := verifYieldFn
+	verifMu.Unlock()
+	if f != nil {
+		f(point)
+	}
+}
